@@ -82,6 +82,13 @@ func (u *unwinder) Error() string   { return fmt.Sprint("unwinder", u.errs) }
 func (u *unwinder) Unwind() []error { return u.errs }
 func (u *unwinder) Unwrap() []error { return u.errs }
 
+// unwindOnly is a user aggregate that speaks only the library's own protocol
+// (Unwind() []error), not the stdlib one.
+type unwindOnly struct{ errs []error }
+
+func (u *unwindOnly) Error() string   { return fmt.Sprint("unwindOnly", u.errs) }
+func (u *unwindOnly) Unwind() []error { return u.errs }
+
 type otherErr struct{}
 
 func (*otherErr) Error() string { return "other-pointer-type" }
@@ -112,10 +119,11 @@ const (
 	lPPStr // ers.ParsePanic("boom")
 	lPPInt // ers.ParsePanic(42)
 	lPPNil // ers.ParsePanic(nil)
+	lLayer // errors.Unwrap(ers.Join(E1, E2, P)): the inner layer of an aggregate, holding E2 and E1
 	numLeafKinds
 )
 
-var leafNames = [...]string{"nil", "E1", "E2", "P", "T", "io.EOF", `ers.ParsePanic("boom")`, "ers.ParsePanic(42)", "ers.ParsePanic(nil)"}
+var leafNames = [...]string{"nil", "E1", "E2", "P", "T", "io.EOF", `ers.ParsePanic("boom")`, "ers.ParsePanic(42)", "ers.ParsePanic(nil)", "errors.Unwrap(ers.Join(E1, E2, P))"}
 
 // the five identity leaves, indexed by bit in mv.leaves
 var idLeaves = [...]error{e1, e2, pErr, tErr, io.EOF}
@@ -155,13 +163,15 @@ const (
 	opCollConsume2
 	opCollHelpers3
 	opUnwinderNil2
+	opJoinUnwindOnly2
+	opCollUnwindOnly2
 	numOps
 )
 
 var opNames = [...]string{"leaf", "Wrap", "Wrapf", "FmtW", "ParsePanicErr", "Join1", "Collector1", "StackPush1",
 	"Join2", "FmtWW", "ErrorsJoin2", "StackPush2", "StackAdd2", "StackInStack2", "Collector2", "CustomUnwinder2",
-	"Join3", "StackInStack3", "ParsePanicSlice3", "CollectorRecover1", "CollectorConsume2", "CollectorHelpers3", "CustomUnwinderWithNilSlot2"}
-var opArity = [...]int{0, 1, 1, 1, 1, 1, 1, 1, 2, 2, 2, 2, 2, 2, 2, 2, 3, 3, 3, 1, 2, 3, 2}
+	"Join3", "StackInStack3", "ParsePanicSlice3", "CollectorRecover1", "CollectorConsume2", "CollectorHelpers3", "CustomUnwinderWithNilSlot2", "JoinOfUnwindOnlyAggregate2", "CollectorOfUnwindOnlyAggregate2"}
+var opArity = [...]int{0, 1, 1, 1, 1, 1, 1, 1, 2, 2, 2, 2, 2, 2, 2, 2, 3, 3, 3, 1, 2, 3, 2, 2, 2}
 
 type expr struct {
 	op   int
@@ -226,6 +236,10 @@ func (e *expr) String() string {
 		return `ers.ParsePanic([]error{` + a + `})`
 	case opUnwinderNil2:
 		return `&unwinder{` + k[0] + `, nil, ` + k[1] + `}`
+	case opJoinUnwindOnly2:
+		return `ers.Join(nil, &unwindOnly{` + a + `})`
+	case opCollUnwindOnly2:
+		return `collector{&unwindOnly{` + a + `}}.Resolve()`
 	case opCollRecover1:
 		return `collector{defer erc.Recover; panic(` + a + `)}.Resolve()`
 	case opCollConsume2:
@@ -336,6 +350,14 @@ func eval(e *expr) (error, *mv) {
 			return ers.ParsePanic(42), m
 		case lPPNil:
 			return ers.ParsePanic(nil), nilMV
+		case lLayer:
+			// what errors.Unwrap hands out for an aggregate of three: the layer
+			// below the most recent error, itself an aggregate of the two older ones
+			a := &mv{self: item{id: error(e1), name: "E1"}, leaves: bitE1}
+			b := &mv{self: item{id: error(e2), name: "E2"}, leaves: bitE2}
+			m := combine(each(a, b)...)
+			m.leaves = bitE1 | bitE2
+			return errors.Unwrap(ers.Join(e1, e2, pErr)), m
 		}
 	}
 	vs := make([]error, len(e.kids))
@@ -437,6 +459,23 @@ func eval(e *expr) (error, *mv) {
 		} else {
 			v, m = &unwinder{errs: []error{vs[0], nil, vs[1]}}, stdAgg(ms...)
 		}
+	case opJoinUnwindOnly2, opCollUnwindOnly2:
+		// an Unwind-only aggregate as the ONLY non-nil argument of a combinator: it
+		// is flattened like any other aggregate
+		u := &unwindOnly{}
+		for _, x := range vs {
+			if x != nil {
+				u.errs = append(u.errs, x)
+			}
+		}
+		if e.op == opJoinUnwindOnly2 {
+			v = ers.Join(nil, u)
+		} else {
+			ec := &erc.Collector{}
+			ec.Add(u)
+			v = ec.Resolve()
+		}
+		m = combine(ms)
 	case opCollRecover1:
 		// the collector fed by a recovered panic whose value is the error
 		ec := &erc.Collector{}
@@ -897,11 +936,11 @@ func Run(r *rep.Report, tier string) {
 	}
 	deadline := start.Add(limit)
 
-	full := []int{lNil, lE1, lE2, lP, lT, lEOF, lPPStr, lPPInt, lPPNil}
+	full := []int{lNil, lE1, lE2, lP, lT, lEOF, lPPStr, lPPInt, lPPNil, lLayer}
 	l1full := level1(full)
 	l1 := func(leaves ...int) []*expr { return level1(leaves) }
 
-	phases := []phase{rootsPhase("depth1: every constructor over all 9-leaf tuples", l1full)}
+	phases := []phase{rootsPhase("depth1: every constructor over all 10-leaf tuples", l1full)}
 	var rule string
 	if tier == "thorough" {
 		d2 := materialize(l1(lNil, lE1, lT), []int{lNil, lP})
@@ -913,7 +952,7 @@ func Run(r *rep.Report, tier string) {
 			spinePhase("depth3 spine: one depth-2 spine child (leaves {nil,E1,T}, siblings {nil,P}), leaf siblings from {nil,E2}", 3, d2, []int{lNil, lE2}),
 			spinePhase("depth4 spine: one depth-3 spine child (leaf E1, siblings P, E2), leaf sibling io.EOF", 4, d3, []int{lEOF}),
 		)
-		rule = "trees of depth<=4: depth 1 complete over 9 leaves; depth 2 spine + all binary/ternary roots over two/three depth-1 children (reduced leaf alphabets); depth 3 and 4 spine trees (exactly one non-leaf child per node above depth 1, any position); alphabets as listed in phases"
+		rule = "trees of depth<=4: depth 1 complete over 10 leaves; depth 2 spine + all binary/ternary roots over two/three depth-1 children (reduced leaf alphabets); depth 3 and 4 spine trees (exactly one non-leaf child per node above depth 1, any position); alphabets as listed in phases"
 	} else {
 		d2 := materialize(l1(lE1), []int{lP})
 		phases = append(phases,
@@ -921,7 +960,7 @@ func Run(r *rep.Report, tier string) {
 			pairPhase("depth2 full binary: both children depth-1, over leaves {nil,E1} and {nil,E2}, both orders", l1(lNil, lE1), l1(lNil, lE2)),
 			spinePhase("depth3 spine: one depth-2 spine child (leaf E1, sibling P), leaf sibling E2", 3, d2, []int{lE2}),
 		)
-		rule = "trees of depth<=3: depth 1 complete over 9 leaves; depth 2 spine + all binary roots over two depth-1 children (reduced leaf alphabets); depth 3 spine trees (exactly one non-leaf child per node above depth 1, any position); alphabets as listed in phases"
+		rule = "trees of depth<=3: depth 1 complete over 10 leaves; depth 2 spine + all binary roots over two depth-1 children (reduced leaf alphabets); depth 3 spine trees (exactly one non-leaf child per node above depth 1, any position); alphabets as listed in phases"
 	}
 
 	nw := runtime.NumCPU()
